@@ -346,6 +346,7 @@ func (c07) Exec(c *sim.Case, env *Env) []sim.Violation {
 		document.VerifResetProcessState()
 		s := sched.New(sim.NewRand(c.SchedSeed ^ 0xC0))
 		simrt.InstallOrder(c.Order, c.OrderSeed^2, len(c.Tasks), s)
+		ioStats := simrt.InstallIO(s, nil) // every file-system call of the library is a yield point: tasks interleave inside Save and Open
 		conc := make([]*c07obs, len(c.Tasks))
 		stats := make([]*sim.Stats, len(c.Tasks))
 		logs := make([]*sim.Log, len(c.Tasks))
@@ -355,7 +356,9 @@ func (c07) Exec(c *sim.Case, env *Env) []sim.Violation {
 			conc[t] = newC07obs()
 			stats[t] = sim.NewStats()
 			logs[t] = &sim.Log{}
-			w := mkWorld(fmt.Sprintf("c%d", t), stats[t], logs[t], conc[t])
+			// all tasks save into ONE directory (under file names of their own), as programs do
+			w := mkWorld("c", stats[t], logs[t], conc[t])
+			w.FilePrefix = fmt.Sprintf("t%d-", t)
 			ops := c.Tasks[t]
 			fns[t] = func() {
 				for _, op := range ops {
@@ -374,6 +377,7 @@ func (c07) Exec(c *sim.Case, env *Env) []sim.Violation {
 			raceLog = env.RaceNew()
 		}
 		env.Stats.ProbeN("context_switches", int64(s.Switches))
+		env.Stats.ProbeN("io_yield_points", ioStats.Calls)
 		env.Stats.ProbeN("schedule_picks", int64(len(s.Trace)))
 		env.Log.Event("sched %v", s.Trace)
 		if s.Deadlock || s.Overrun {
